@@ -225,6 +225,8 @@ namespace mustache {
                 result.data_.push_back(id);
             }
 
+            result.ids_ = oth.ids_;
+
             for (const auto& id : ids_) {
                 result.ids_.push_back(id);
             }
